@@ -24,6 +24,7 @@ dense side
     ``dense_charges(model)`` -> (dim, Q) charge of every product basis state
     ``sector_support(dense, model, kind, rtol)`` -> set of total charges carrying weight
     ``schmidt_ranks(dense, model, kind)`` -> (ranks per bond 0..n, ambiguous flag)
+    ``bond_sectors(dense, model, kind)`` -> per internal bond, the set of left-block charges carrying weight
     ``exact_bond_bound(model, kind)`` -> min(prod left, prod right) per bond
 structure checks (independent of the library's own checkers)
     ``kind_of(mp)``  ``left_labels(mp)``  ``check_labels(mp, tol)`` -> list of problems
@@ -517,19 +518,42 @@ def exact_bond_bound(model, kind):
     return [min(left[i], right[i]) for i in range(n + 1)]
 
 
-def schmidt_ranks(dense, model, kind, lo=1e-13, hi=1e-7):
-    """Numerical Schmidt rank across every bond 0..n of the dense object, and a flag telling that
-    some singular value fell in the ambiguous window (lo, hi) relative to the largest."""
+def _site_tensor(dense, model, kind):
+    """dense object as a tensor with one axis per site (axis size d, or d*d up-major)"""
     ds = [b.nbas for b in model.basis]
     n = len(ds)
     if kind == "mps":
-        t = np.asarray(dense).reshape(ds)
-    else:
-        t = np.asarray(dense).reshape(ds + ds)
-        perm = []
-        for i in range(n):
-            perm += [i, n + i]
-        t = t.transpose(perm).reshape([d * d for d in ds])
+        return np.asarray(dense).reshape(ds)
+    t = np.asarray(dense).reshape(ds + ds)
+    perm = []
+    for i in range(n):
+        perm += [i, n + i]
+    return t.transpose(perm).reshape([d * d for d in ds])
+
+
+def bond_sectors(dense, model, kind, rtol=1e-9):
+    """For every internal bond i = 1..n-1 the set of left-block charges (tuples) that carry weight
+    above ``rtol * |dense|`` in the dense object.  List of n-1 sets."""
+    t = _site_tensor(dense, model, kind)
+    sq = site_qn(model, kind)
+    p = list(t.shape)
+    n = len(p)
+    tot = max(float(np.linalg.norm(t.ravel())), 1e-300)
+    q = sq[0].shape[1]
+    ch = np.zeros((1, q), dtype=int)
+    out = []
+    for i in range(1, n):
+        ch = (ch[:, None, :] + sq[i - 1][None, :, :]).reshape(-1, q)
+        w = np.linalg.norm(t.reshape(int(np.prod(p[:i])), -1), axis=1)
+        out.append({tuple(int(x) for x in c) for c, x in zip(ch, w) if x > rtol * tot})
+    return out
+
+
+def schmidt_ranks(dense, model, kind, lo=1e-13, hi=1e-7):
+    """Numerical Schmidt rank across every bond 0..n of the dense object, and a flag telling that
+    some singular value fell in the ambiguous window (lo, hi) relative to the largest."""
+    t = _site_tensor(dense, model, kind)
+    n = t.ndim
     p = list(t.shape)
     ranks, amb = [1], False
     for i in range(1, n):
